@@ -518,7 +518,9 @@ def advance (q : Quirks) (c : Cfg) :
         let from_ := f.idx / f.mc * f.mc
         let batchDone : Bool := f.mc != 0 && (batchOf f.mc width from_).all (fun i => j.filled.contains i)
         let v' := { v with joins := setJoin js j }
-        if batchDone && (q.batchRelaunched || !c.batches.contains (f.jid, from_ + f.mc)) then
+        -- (crash-safe protocol: a batch is re-entered once — the durable record — and only when there is one: after a crash
+        -- the LAST batch may be refilled before the earlier held events are redelivered)
+        if batchDone && (q.batchRelaunched || (decide (from_ + f.mc < width) && !c.batches.contains (f.jid, from_ + f.mc))) then
           ([.pubEv (.reenter f (from_ + f.mc) outer owner)] ++ early, v')
         else (early, v')
     | rest, stack => ([.pubEv (.visit rest stack false owner), .ackEv ev] ++ ackR, v)
